@@ -286,4 +286,5 @@ def run(chk):
     common.fromvalue_rule(chk, P, "C17", ["emit::level::Level"])
     common.arg_agreement_rule(chk, P, "C17", [("emit", "src/level.rs")], 1)
     common.builder_rules(chk, P, "C17", lambda b: b.key.startswith("emit::level::MinLevelFilter::<"), 1)
+    common.level_parser_table(chk, P, "C17")
     return chk
